@@ -4,8 +4,11 @@ package store
 
 import (
 	"errors"
+	"io"
+	"net/http"
 
 	adapter "github.com/tinode/chat/server/db"
+	"github.com/tinode/chat/server/media"
 	"github.com/tinode/chat/server/store/types"
 )
 
@@ -106,5 +109,58 @@ func Harness_C13_store_attachments_without_media_handler() {
 	verifAssert(err == nil, "message-with-attachments-saved-when-media-is-not-configured")
 	err = Files.LinkAttachments("grpAAAAAAAAAAB", types.ZeroUid, []string{url})
 	_ = err
+	verifReach("end")
+}
+
+// ---- C16 (linking): attachments listed with a published message are linked to that message - whoever the
+// author is and whether or not the author's own marks are updated - so that they are never collected while the
+// message exists. Links are made for exactly the URLs that name an upload.
+
+type verifMediaFake struct{}
+
+func (verifMediaFake) Init(jsconf string) error { return nil }
+func (verifMediaFake) Headers(req *http.Request, serve bool) (http.Header, int, error) {
+	return nil, 0, nil
+}
+func (verifMediaFake) Upload(fdef *types.FileDef, file io.ReadSeeker) (string, int64, error) {
+	return "", 0, nil
+}
+func (verifMediaFake) Download(url string) (*types.FileDef, media.ReadSeekCloser, error) {
+	return nil, nil, nil
+}
+func (verifMediaFake) Delete(locations []string) error { return nil }
+func (verifMediaFake) GetIdFromUrl(url string) types.Uid {
+	// "/v0/file/s/<n>" names upload number n (1..9); anything else names nothing
+	if len(url) == 12 && url[:11] == "/v0/file/s/" && url[11] >= '1' && url[11] <= '9' {
+		return types.Uid(url[11] - '0')
+	}
+	return types.ZeroUid
+}
+
+func Harness_C16_store_save_links_attachments() {
+	a := &verifAdp{failAt: -1}
+	adp = a
+	uGen.Init(1, []byte("0123456789abcdef"))
+	mediaHandler = verifMediaFake{}
+	urls := []string{"/v0/file/s/3", "http://elsewhere/x.png", "/v0/file/s/7"}
+	n := verifChoose("attachments", 4)
+	from := types.Uid(7).String()
+	if verifNondetBool("systemAuthor") {
+		from = ""
+	}
+	msg := &types.Message{SeqId: 1, Topic: "grpAAAAAAAAAAB", From: from, Content: "x"}
+	err, _ := Messages.Save(msg, urls[:n], verifNondetBool("readBySender"))
+	verifAssert(err == nil, "message-with-attachments-saved")
+	named := 0
+	for _, u := range urls[:n] {
+		if !(verifMediaFake{}).GetIdFromUrl(u).IsZero() {
+			named++
+		}
+	}
+	if named > 0 {
+		verifAssert(a.links == 1, "attachments-of-a-saved-message-are-linked")
+	} else {
+		verifAssert(a.links == 0, "nothing-linked-when-no-url-names-an-upload")
+	}
 	verifReach("end")
 }
